@@ -99,6 +99,17 @@ impl Engine {
         self.read_until_readyok(watchdog)
     }
 
+    /// After a watchdog expired: is the process merely waiting for input? True when it used (almost) no CPU
+    /// over the next 1.2 s and the kernel reports it sleeping — its search is over, so an answer that has not
+    /// arrived by now is not going to arrive (it was never printed, or sits in an unflushed buffer).
+    pub fn idle_after_timeout(&self) -> bool {
+        let c0 = self.cpu_ms();
+        std::thread::sleep(Duration::from_millis(1200));
+        let c1 = self.cpu_ms();
+        let state = std::fs::read_to_string(format!("/proc/{}/stat", self.pid)).ok().and_then(|t| t.rsplit(')').next().map(|r| r.trim().chars().next().unwrap_or('?'))).unwrap_or('?');
+        c1.saturating_sub(c0) <= 10 && state == 'S'
+    }
+
     /// Injected delay: stop the process (SIGSTOP) for `ms` milliseconds of wall time, then let it go on.
     /// Nothing it computes may depend on that; only wall-clock deadlines see it.
     pub fn pause(&self, ms: u64) {
